@@ -1,7 +1,7 @@
 (* C07  linear_equivalence decides membership of D1 - D2 in the Laplacian lattice. *)
 From Coq Require Import ZArith List Bool.
 Import ListNotations.
-From CF Require Import ListAux Defs LinEquiv Core EwdLink LineqLink.
+From CF Require Import ListAux Defs LinEquiv Core EwdLink LineqLink Termination.
 Open Scope Z_scope.
 
 (* b = true exactly when the graphs coincide structurally and D1 - D2 = L*sigma for an integer script sigma.
@@ -13,6 +13,12 @@ Theorem C07_spec_partial : forall g, wfb g = true -> forall fuel D1 g2 D2 b, len
 Proof. exact lineq_spec. Qed.
 Print Assumptions C07_spec_partial.
 
+(* on connected multigraphs the hypothesis is discharged by the termination theorem: the full specification *)
+Theorem C07_spec : forall g, wfb g = true -> connected_b g = true -> forall fuel D1 g2 D2 b, length D1 = nv g -> length D2 = nv g -> (0 < nv g)%nat ->
+  linear_equivalence fuel g D1 g2 D2 = Done b ->
+  (b = true <-> graph_eqb g g2 = true /\ lequiv (Vg g) (mult g) (nthZ D1) (nthZ D2)).
+Proof. intros g Hwf Hc fuel D1 g2 D2 b L1 L2 Hn. apply lineq_spec; auto. apply ewd_q_terminates; auto; [apply argmin_in; auto|]; apply tab_length. Qed.
+Print Assumptions C07_spec.
 (* the relation it decides is an equivalence, invariant under firing moves, and forces equal degrees -- for every multigraph *)
 Theorem C07_equivalence : forall V m, (forall D, lequiv V m D D) /\ (forall D E, lequiv V m D E -> lequiv V m E D) /\
   (forall D E F, lequiv V m D E -> lequiv V m E F -> lequiv V m D F).
